@@ -12,6 +12,22 @@ import (
 	"time"
 )
 
+// ---- patience: every inner wait and watchdog is a multiple of this; a verdict that depends
+// on a wait (timeout, leak, stuck) is re-run with doubled patience before it is reported.
+
+var patience atomic.Int64
+
+func patient() time.Duration {
+	p := patience.Load()
+	if p < 1 {
+		p = 1
+	}
+	return time.Duration(p) * 30 * time.Second
+}
+
+// leakWait: how long the leak oracle waits for goroutines to finish (a real leak costs this much).
+func leakWait() time.Duration { return patient() / 30 }
+
 // ---- goroutine dump: leak oracle and "blocked on a mutex" detection
 
 type ginfo struct {
@@ -93,6 +109,7 @@ func isRepoGoroutine(g ginfo) bool {
 // repo code to finish; returns how many remain and a short description of the first.
 func leaked(base map[int64]bool, wait time.Duration) (int, string) {
 	deadline := time.Now().Add(wait)
+	pause := 100 * time.Microsecond
 	for {
 		n, first := 0, ""
 		for _, g := range dumpGoroutines() {
@@ -107,7 +124,10 @@ func leaked(base map[int64]bool, wait time.Duration) (int, string) {
 		if n == 0 || time.Now().After(deadline) {
 			return n, first
 		}
-		time.Sleep(200 * time.Microsecond)
+		time.Sleep(pause)
+		if pause < 20*time.Millisecond {
+			pause *= 2
+		}
 	}
 }
 
